@@ -4,9 +4,9 @@ LEVEL = "other"
 
 def check(rep, tier):
     from contracts import rules_scalar
-    rules_scalar.run(rep, tier, kinds=("vjp",))
-    rules_scalar.run_kinks(rep, tier)
+    rep.run(rules_scalar.run, rep, tier, kinds=("vjp",))
+    rep.run(rules_scalar.run_kinks, rep, tier)
     from contracts import rules_exact
-    rules_exact.run(rep, tier, rules_exact.CLAUSE_PROPS["C01"])
+    rep.run(rules_exact.run, rep, tier, rules_exact.CLAUSE_PROPS["C01"])
     from contracts import rules_numeric
-    rules_numeric.run(rep, tier, clauses=('N-vjp',), only_complex='real-only')
+    rep.run(rules_numeric.run, rep, tier, clauses=('N-vjp',), only_complex='real-only')
